@@ -203,7 +203,7 @@ var faultMethods = map[string][]string{
 
 var focusWeights = map[string]map[string]int{
 	"issue": {"Authorize": 4, "Login": 4, "Callback": 6, "CodeExchange": 8, "Refresh": 5, "DeviceAuthorize": 2, "Approve": 2, "Poll": 4,
-		"ClientCreds": 2, "JWTBearer": 2, "TokenExchange": 5},
+		"ClientCreds": 2, "JWTBearer": 2, "TokenExchange": 5, "RotateKey": 1},
 	"authorize": {"Authorize": 10, "Login": 5, "Callback": 8, "CodeExchange": 2},
 	"code":     {"Authorize": 4, "Login": 4, "Callback": 5, "CodeExchange": 10, "Refresh": 1, "UserInfo": 1, "EndSession": 1},
 	"refresh":  {"Authorize": 3, "Login": 3, "Callback": 4, "CodeExchange": 5, "Refresh": 10, "Revoke": 1},
@@ -303,6 +303,8 @@ func (g *gen) next() (string, M) {
 			}
 		}
 		return op, a
+	case "RotateKey":
+		return op, M{"keepKid": g.rng.Intn(3) == 0}
 	case "Login":
 		return op, M{"req": g.oneOf(g.reqsWhere(false), g.existing(d.reqID, "r99")), "user": g.pick("u1", "u2")}
 	case "Callback":
